@@ -8,7 +8,11 @@ Events == LET raw == ndJsonDeserialize(EventFile) IN {raw[j] : j \in DOMAIN raw}
 TInit == ev \in Events /\ InitWith(ev.cs)
 TNext == Next /\ UNCHANGED ev
 First == pc = "args" /\ code = CHOOSE k \in Codes : TRUE
-Failed == {n \in Names : ~ Judge(ev.cs, ev.ob, n)}
+(* events recorded through the command line (phonopy --band ...) carry only what band.yaml and the reader show: *)
+(* ev.only lists the requirements that can be judged on them                                                  *)
+Full == "only" \notin DOMAIN ev
+Judged == IF Full THEN Names ELSE {ev.only[j] : j \in DOMAIN ev.only}
+Failed == {n \in Judged : ~ Judge(ev.cs, ev.ob, n)}
 ImplConn == First => Judge(ev.cs, ev.ob, "Conn")
 ImplLabels == First => Judge(ev.cs, ev.ob, "Labels")
 ImplIncrements == First => Judge(ev.cs, ev.ob, "Increments")
@@ -25,9 +29,11 @@ ImplReaderSegments == First => Judge(ev.cs, ev.ob, "ReaderSegments")
 ImplReaderLabels == First => Judge(ev.cs, ev.ob, "ReaderLabels")
 ImplReaderNoLabels == First => Judge(ev.cs, ev.ob, "ReaderNoLabels")
 ImplReaderConn == First => Judge(ev.cs, ev.ob, "ReaderConn")
+ImplScriptPanels == First => Judge(ev.cs, ev.ob, "ScriptPanels")
+ImplScriptLegacy == First => Judge(ev.cs, ev.ob, "ScriptLegacy")
 ReportReq == First => PrintT(ToString(<<"Q", ev.id, Failed>>))
 Conf == /\ mconn = ev.ob.conn /\ mlabels = ev.ob.labels /\ minc = ev.ob.inc2
         /\ mpairs = ev.ob.y.labels
         /\ mrd.segn = ev.ob.rd.segn /\ mrd.conn = ev.ob.rd.conn /\ mrd.labels = ev.ob.rd.labels
-Report == Done => PrintT(ToString(<<"R", ev.id, code.lastPair, Conf>>))
+Report == (Done /\ Full) => PrintT(ToString(<<"R", ev.id, code.lastPair, Conf>>))
 =============================================================================
